@@ -15,7 +15,7 @@ ASSUMPTIONS = ["reference renderer/parser vf/ref/asm.py", "no claim for: case-in
 NSHARDS = {"quick": 32, "thorough": 64}
 BUDGET_S = {"quick": 200, "thorough": 1800}
 MIN_HITS = {
-    'quick': {"exh2": 140000, "grammar": 1500, "ws": 1500, "xasm": 140000, "digit_push": 3000, "reject_case": 300, "accept_case": 300, "conditional": 800},
+    'quick': {"exh2": 71442, "grammar": 800, "ws": 1360, "xasm": 79360, "digit_push": 34805, "reject_case": 159, "accept_case": 225, "conditional": 25788},
     'thorough': {"exh2": 85730, "grammar": 192000, "ws": 325530, "xasm": 277957, "digit_push": 111679, "reject_case": 46023, "accept_case": 69177, "conditional": 127284, "push>=65536": 5353},
 }
 SEPS = [" ", "  ", "     ", " \n ", " \r\n ", " \n\n ", " \t ", "\n ", " \n", " \r\n", "\t "]
